@@ -6,6 +6,7 @@ import (
 	"fmt"
 	"math"
 	"net"
+	"reflect"
 	"strings"
 	"time"
 
@@ -13,6 +14,7 @@ import (
 	gclient "github.com/openconfig/gnmi/client/gnmi"
 	"google.golang.org/grpc"
 	"google.golang.org/grpc/credentials"
+	"verif/harness/internal/gn"
 )
 
 // Observers that live WHILE the scripts play: client-library STREAM subscriptions through the
@@ -82,23 +84,27 @@ type obsState struct {
 	want    map[string]string // sentinel value per target in scope
 	scope   map[string]bool
 	atomics [][]string // prefixes (with target) of every container some script creates
-	c       *client.CacheClient
-	cancel  context.CancelFunc
+	// leaves (key with target) whose FINAL value travels in the deprecated Update.value field and is the first (or only)
+	// update of its notification -> that value as the reference view has it (for labels)
+	legacyFinal map[string]interface{}
+	c           *client.CacheClient
+	cancel      context.CancelFunc
 
 	started, dialed, first, synced, done, pausing, ended bool
 	startedAt, pauseEnd, lastReset                       time.Time
 	// reconnecting observers: the transport(s) of the current attempt, whether one stands and has delivered
 	// something, how often the library subscribed again (reset callbacks), cuts made / made in vain
-	raw                                    []net.Conn
-	live, attemptFirst, cutting            bool
-	resets, cutsExecuted, cutNoEffect      int
-	onceDone                               bool
-	err                                    error
-	seen                                   map[string]bool
-	nextPause, pausesEntered, pauseByBound int
-	dupUpdates                             int
-	maxTick                                int64
-	dupAtomic, wildBeforeSync, whileDown   bool
+	raw                                            []net.Conn
+	live, attemptFirst, cutting                    bool
+	resets, cutsExecuted, cutNoEffect              int
+	onceDone                                       bool
+	err                                            error
+	seen                                           map[string]bool
+	nextPause, pausesEntered, pauseByBound         int
+	dupUpdates                                     int
+	maxTick                                        int64
+	dupAtomic, wildBeforeSync, whileDown           bool
+	dupLegacy, dupLegacyLast, dupLegacyLastBlocked bool
 	// idle streams: when the current subscription delivered something last, and the longest time between two
 	// deliveries of one subscription after its sync marker (a measurement for labels, never for a verdict)
 	lastRecv time.Time
@@ -155,6 +161,13 @@ func (o *obsState) handle(h *hub, clock *play, n client.Notification) error {
 		mark(&o.first)
 		if u.Dups > 0 {
 			o.dupUpdates++
+			if w, ok := o.legacyFinal[gn.Key(u.Path)]; ok {
+				o.dupLegacy = true
+				if reflect.DeepEqual(u.Val, w) {
+					o.dupLegacyLast = true
+					o.dupLegacyLastBlocked = o.dupLegacyLastBlocked || o.pausesEntered > 0
+				}
+			}
 			for _, p := range o.atomics {
 				if len(u.Path) > len(p) && strings.Join(u.Path[:len(p)], "\x00") == strings.Join(p, "\x00") {
 					o.dupAtomic = true
@@ -329,8 +342,18 @@ func newObservers(h *hub, sc *Scenario, id string) *flowRun {
 			}
 		}
 	}
+	legacyFinal := map[string]interface{}{}
+	if len(sc.Observers) > 0 {
+		for _, tg := range sc.Targets {
+			m := newModel()
+			for _, o := range tg.Ops {
+				m.apply(o, nil)
+			}
+			m.legacyHeads(tg.Name, legacyFinal)
+		}
+	}
 	for i, spec := range sc.Observers {
-		o := &obsState{h: h, spec: spec, idx: i, target: "*", want: map[string]string{}, scope: map[string]bool{}, seen: map[string]bool{}, atomics: atomics, c: client.New()}
+		o := &obsState{h: h, spec: spec, idx: i, target: "*", want: map[string]string{}, scope: map[string]bool{}, seen: map[string]bool{}, atomics: atomics, legacyFinal: legacyFinal, c: client.New()}
 		if spec.Scope >= 0 {
 			o.target = sc.Targets[spec.Scope%len(sc.Targets)].Name
 			o.want[o.target], o.scope[o.target] = id, true
@@ -510,6 +533,9 @@ func (fr *flowRun) check(ref map[string]interface{}, st *stats) error {
 		st.coalesced = st.coalesced || o.dupUpdates > 0
 		st.coalescedAtPaused = st.coalescedAtPaused || (o.dupUpdates > 0 && o.pausesEntered > 0)
 		st.coalescedAtomic = st.coalescedAtomic || o.dupAtomic
+		st.coalescedLegacy = st.coalescedLegacy || o.dupLegacy
+		st.coalescedLegacyLast = st.coalescedLegacyLast || o.dupLegacyLast
+		st.coalescedLegacyLastBlocked = st.coalescedLegacyLastBlocked || o.dupLegacyLastBlocked
 		st.wildBeforeSync = st.wildBeforeSync || o.wildBeforeSync
 		st.whileDown = st.whileDown || o.whileDown
 		st.pauseByBound = st.pauseByBound || o.pauseByBound > 0
